@@ -170,7 +170,7 @@ func coqPath(p string) string {
 		}
 		s[i] = fmt.Sprintf("%d", id)
 	}
-	return "([" + strings.Join(s, ";") + "]%N)"
+	return "[" + strings.Join(s, ";") + "]"
 }
 
 func coqDest(d string) string {
@@ -193,6 +193,17 @@ func coqDest(d string) string {
 	return "[" + strings.Join(s, ";") + "]"
 }
 
+// coqRle: run-length encoded content, without scope annotations (the case files open N_scope:
+// annotated literals make their elaboration five times slower)
+func coqRle(b []byte) string {
+	r := lib.ToRle(b)
+	s := make([]string, len(r))
+	for i, x := range r {
+		s[i] = fmt.Sprintf("(%d,%d)", x.V, x.C)
+	}
+	return "[" + strings.Join(s, ";") + "]"
+}
+
 func coqNode(n hNode) string {
 	switch n.Kind {
 	case "dir":
@@ -200,7 +211,7 @@ func coqNode(n hNode) string {
 	case "link":
 		return "RLink " + coqDest(n.Dest)
 	}
-	return "RFile " + lib.ToRle(n.Data).Coq()
+	return "RFile " + coqRle(n.Data)
 }
 
 func coqTree(t hTree) string {
@@ -777,17 +788,22 @@ func healCoq(hc *healCase, sig *pwr.SignatureInfo, runs []healRun) string {
 		l = append(l, "("+coqPath(x.Path)+", "+coqDest(x.Dest)+")")
 	}
 	for _, x := range sig.Container.Files {
-		f = append(f, "("+coqPath(x.Path)+", "+lib.ToRle(hc.Signed[x.Path].Data).Coq()+")")
+		f = append(f, "("+coqPath(x.Path)+", "+coqRle(hc.Signed[x.Path].Data)+")")
 	}
 	var outs []string
+	seen := map[string]bool{}
 	for _, ru := range runs {
 		if ru.Final == nil {
 			continue // a hang has no final tree; the oracle has flagged it
 		}
 		cl := map[string]int64{"ok": 0, "error": 1, "panic": 2}[ru.Class]
-		outs = append(outs, "("+lib.CoqN(cl)+", "+coqTree(ru.Final)+")")
+		o := fmt.Sprintf("(%d, %s)", cl, coqTree(ru.Final))
+		if !seen[o] { // the distinct outcomes of the GOMAXPROCS runs
+			seen[o] = true
+			outs = append(outs, o)
+		}
 	}
-	return fmt.Sprintf("($ID%%N, %s, (%s, %s, %s), %s, %s)", coqPath("t0"), lib.CoqList(d), lib.CoqList(l), lib.CoqList(f),
+	return fmt.Sprintf("($ID, %s, (%s, %s, %s), %s, %s)", coqPath("t0"), lib.CoqList(d), lib.CoqList(l), lib.CoqList(f),
 		coqTree(hc.Damaged), lib.CoqList(outs))
 }
 
